@@ -194,7 +194,10 @@ type row struct {
 	id   int64
 	ts   int64
 	vals []val // per key field
+	text string // the bloom-indexed text field t0 (and its non-indexed twin u0)
 }
+
+var bbWords = []string{"needle", "hay", "alpha", "beta", "gamma", "x7", "error", "ok", "agent1", "agent2", "rare1", "rare2"}
 
 var strDom = []string{"A", "B", "C", "D", "Da", "a", "ab", "b", "é", "日本", "z"}
 var intDom = []int64{-3, -1, 0, 1, 2, 3, 4, 5, 7, 9, 9223372036854775807, -9223372036854775808}
@@ -277,15 +280,30 @@ func lpField(ty string, v val) string {
 var ddlType = map[string]string{"string": "string", "int": "int64", "float": "float64", "bool": "bool"}
 
 type cond struct {
-	op   string // and or | = != < <= > >=
+	op   string // and or | = != < <= > >= | match (MATCHPHRASE on the bloom-indexed text field)
 	args []*cond
 	col  int
 	v    val
+	w    string
+}
+
+func (c *cond) hasMatch() bool {
+	if c.op == "and" || c.op == "or" {
+		return c.args[0].hasMatch() || c.args[1].hasMatch()
+	}
+	return c.op == "match"
 }
 
 func (c *cond) text(names []string, types []string) string {
 	if c.op == "and" || c.op == "or" {
 		return "(" + c.args[0].text(names, types) + " " + strings.ToUpper(c.op) + " " + c.args[1].text(names, types) + ")"
+	}
+	if c.op == "match" {
+		f := "t0"
+		if len(names) > 0 && strings.HasPrefix(names[0], "c") {
+			f = "u0"
+		}
+		return "MATCHPHRASE(" + f + ", '" + c.w + "')"
 	}
 	return names[c.col] + " " + c.op + " " + lit(types[c.col], c.v)
 }
@@ -296,6 +314,14 @@ func (c *cond) eval(types []string, r *row) bool {
 		return c.args[0].eval(types, r) && c.args[1].eval(types, r)
 	case "or":
 		return c.args[0].eval(types, r) || c.args[1].eval(types, r)
+	}
+	if c.op == "match" {
+		for _, w := range strings.Fields(r.text) {
+			if w == c.w {
+				return true
+			}
+		}
+		return false
 	}
 	k := cmp(types[c.col], r.vals[c.col], c.v)
 	switch c.op {
@@ -318,7 +344,7 @@ func (c *cond) hasIntegralFloatLiteral(types []string) bool {
 	if c.op == "and" || c.op == "or" {
 		return c.args[0].hasIntegralFloatLiteral(types) || c.args[1].hasIntegralFloatLiteral(types)
 	}
-	return types[c.col] == "float" && c.v.f == float64(int64(c.v.f))
+	return c.op != "match" && types[c.col] == "float" && c.v.f == float64(int64(c.v.f))
 }
 
 type Failure struct {
@@ -336,6 +362,8 @@ type Failure struct {
 	// LitMix: the condition compares a float key field with a literal of integral value (the store receives it as an integer
 	// literal: finding C20-literal-type-mismatch)
 	LitMix bool `json:"litmix,omitempty"`
+	// Bloom: the condition has a MATCHPHRASE on the bloom-filter indexed field
+	Bloom bool `json:"bloom,omitempty"`
 }
 
 type Out struct {
@@ -453,8 +481,15 @@ func main() {
 			defs = append(defs, fmt.Sprintf("%s %s field", knames[c], ddlType[types[c]]), fmt.Sprintf("%s %s field", cnames[c], ddlType[types[c]]))
 		}
 		defs = append(defs, "id int64 field")
-		ddl := fmt.Sprintf("CREATE MEASUREMENT %s (%s) WITH ENGINETYPE = columnstore PRIMARYKEY %s SORTKEY %s", mst,
-			strings.Join(defs, ", "), strings.Join(knames, ","), strings.Join(knames, ","))
+		bloom := m == 0
+		idx := ""
+		if bloom {
+			// a bloom-filter indexed text field and its non-indexed twin
+			defs = append(defs, "t0 string field", "u0 string field")
+			idx = " INDEXTYPE bloomfilter INDEXLIST t0"
+		}
+		ddl := fmt.Sprintf("CREATE MEASUREMENT %s (%s) WITH ENGINETYPE = columnstore%s PRIMARYKEY %s SORTKEY %s", mst,
+			strings.Join(defs, ", "), idx, strings.Join(knames, ","), strings.Join(knames, ","))
 		mustQ("c20bb", ddl)
 		// rows
 		small := make([]int, nk)
@@ -472,6 +507,17 @@ func main() {
 			for c := 0; c < nk; c++ {
 				rw.vals = append(rw.vals, genVal(r, types[c], small[c]))
 			}
+			if bloom {
+				nw := 1 + r.Intn(3)
+				var ws []string
+				for k := 0; k < nw; k++ {
+					ws = append(ws, bbWords[r.Intn(len(bbWords)-2)])
+				}
+				if r.Chance(1, 400) { // rare words: most segments do not hold them
+					ws = append(ws, bbWords[len(bbWords)-1-r.Intn(2)])
+				}
+				rw.text = strings.Join(ws, " ")
+			}
 			rows[i] = rw
 		}
 		// written in 1 or 2 flushes (1 or 2 files)
@@ -486,6 +532,9 @@ func main() {
 					sb.WriteByte(' ')
 					for c := 0; c < nk; c++ {
 						fmt.Fprintf(&sb, "%s=%s,%s=%s,", knames[c], lpField(types[c], rw.vals[c]), cnames[c], lpField(types[c], rw.vals[c]))
+					}
+					if bloom {
+						fmt.Fprintf(&sb, "t0=\"%s\",u0=\"%s\",", rw.text, rw.text)
 					}
 					fmt.Fprintf(&sb, "id=%di %d\n", rw.id, rw.ts)
 				}
@@ -527,6 +576,9 @@ func main() {
 		genCond = func(d int) *cond {
 			if d > 0 && r.Chance(3, 5) {
 				return &cond{op: gen.Pick(r, []string{"and", "or"}), args: []*cond{genCond(d - 1), genCond(d - 1)}}
+			}
+			if bloom && r.Chance(2, 5) {
+				return &cond{op: "match", w: bbWords[r.Intn(len(bbWords))]}
 			}
 			col := r.Intn(nk)
 			if r.Chance(1, 3) {
@@ -607,6 +659,7 @@ func main() {
 			extra := diff(ik, ic)
 			if len(miss) > 0 {
 				f.LitMix = c.hasIntegralFloatLiteral(types)
+				f.Bloom = c.hasMatch()
 				f.NKey, f.NTwin, f.NBrute = len(ik), len(ic), nb
 				f.Missing, f.Extra = miss[:min(10, len(miss))], extra[:min(10, len(extra))]
 				for _, id := range f.Missing[:min(3, len(f.Missing))] {
